@@ -79,8 +79,24 @@ def option_matrix(tier: str, rng) -> typing.List[typing.Tuple[str, dict]]:
     return out
 
 
-SIZES = {'quick': dict(n_types=26, per_type=40, n_values=10, rounds=1),
-         'thorough': dict(n_types=32, per_type=110, n_values=24, rounds=7)}
+SIZES = {'quick': dict(n_types=26, per_type=40, n_values=10, rounds=1, obs_sample=700),
+         'thorough': dict(n_types=32, per_type=110, n_values=24, rounds=7, obs_sample=2500)}
+
+
+def obs_keys(tgt: proto.Target) -> typing.List[str]:
+    """the ObsC03 (target, little, setzeros, asserts) instances that model this build; C++ zero runs are written by setZeros or
+    setUxx depending on the template site, so both renderings of the model must reproduce the build"""
+    a = '1' if tgt.options.get('enable_serialization_asserts') else '0'
+    if tgt.name == 'c':
+        return ['c %s 0 %s' % ('1' if tgt.options.get('target_endianness') == 'little' else '0', a)]
+    if tgt.name == 'cpp':
+        return ['cpp 0 0 ' + a, 'cpp 0 1 ' + a]
+    return ['py 0 0 0']
+
+
+def obs_request(key: str, c) -> str:
+    verb, rest = c.req.split(' ', 1)
+    return 'o%s %s %s' % (verb, key, rest)
 
 
 def family(tgt: proto.Target) -> str:
@@ -155,8 +171,9 @@ def incomparable(r: str) -> bool:
 class Ctx:
     """per-namespace context: model, masks, tie flags"""
 
-    def __init__(self, prep: campaign.Prepared, tie_active: bool):
+    def __init__(self, prep: campaign.Prepared, tie_active: bool, obs_sample: int = 0):
         self.prep = prep
+        self.obs_sample = obs_sample
         self.db = prep.db
         self.m = prep.model
         self.tie_active = tie_active
@@ -373,6 +390,33 @@ def evaluate(ctx: Ctx, cases, stats: dict, flags: typing.Optional[set] = None) -
                 fail('model', lab, a=lab, b='model', case=c, got_a=r, got_b=exp,
                      what='generated codec disagrees with its target observable (Spec/TargetsC03.v, extracted)')
 
+    # ---- each target vs the CODE-SHAPED observable of Codec/ObsC03.v (walker over the shipped primitive models, extracted) on a sample
+    limit = ctx.obs_sample
+    if limit:
+        stride = max(1, n // limit)
+        sample = list(range(0, n, stride))[:limit]
+        keys = sorted({k for lab in labs for k in obs_keys(tg[lab])})
+        obs_out = {k: dict(zip(sample, m.run([obs_request(k, cases[i]) for i in sample], timeout=1500.0))) for k in keys}
+        for lab in labs:
+            t = tg[lab]
+            for k in obs_keys(t):
+                for i in sample:
+                    c, r = cases[i], out1[lab][i]
+                    if incomparable(r) or not applicable(t, c):
+                        continue
+                    exp = obs_out[k][i]
+                    cnt['obs_model_comparisons'] = cnt.get('obs_model_comparisons', 0) + 1
+                    if c.op == 'ser':
+                        ok = r == exp or agree_ser(ctx, c, r, exp)
+                        if not ok and not tie_free[i]:
+                            ok = agree_ser(ctx, c, r, m_c[i]) or agree_ser(ctx, c, r, m_py[i])
+                    else:
+                        ok = r == exp or agree_des(ctx, c.tid, r, exp)
+                    if not ok:
+                        fail('model', lab, a=lab, b='model', case=c, got_a=r, got_b=exp, step='ObsC03.obs_%s %s' % (c.op, k),
+                             what='generated codec disagrees with the code-shaped observable (Codec/ObsC03.v over the shipped primitive '
+                                  'models, extracted)')
+
     # ---- pass 2 / 3: own chains
     reqs2: typing.Dict[str, typing.List[str]] = {}
     idx2: typing.Dict[str, typing.List[int]] = {}
@@ -480,7 +524,7 @@ def _sub_prep(prep: campaign.Prepared, labs: typing.List[str]) -> campaign.Prepa
 def case_fails(ctx: Ctx, f: Failure, cands) -> typing.List[bool]:
     """does each candidate case still show a failure of the same kind on the same target(s)?"""
     labs = [x for x in (f['a'], f['b']) if x != 'model']
-    sub = Ctx(_sub_prep(ctx.prep, labs), ctx.tie_active)
+    sub = Ctx(_sub_prep(ctx.prep, labs), ctx.tie_active, ctx.obs_sample)
     for c in cands:
         c.req = campaign.make_request(ctx.m, c)
     flags: set = set()
@@ -592,7 +636,7 @@ def shrink_type(ctx: Ctx, f: Failure, cur, exe: str, budget: int = 10):
             c2.req = campaign.make_request(p2.model, c2)
             f2 = Failure(f)
             f2['a'], f2['b'] = (p2.targets[0][0], p2.targets[1][0]) if len(p2.targets) == 2 else (p2.targets[0][0], f['b'] if f['b'] == 'model' else p2.targets[0][0])
-            ctx2 = Ctx(p2, ctx.tie_active)
+            ctx2 = Ctx(p2, ctx.tie_active, ctx.obs_sample)
             if case_fails(ctx2, f2, [c2])[0]:
                 files, lines, value, cur = cand_files, cand_lines, cand_value, c2
                 answers = answers_for(p2, [l for l, _ in p2.targets], c2)
@@ -641,7 +685,7 @@ def run_replay(chk: core.Check, path: str, exe: str) -> int:
     c = case_from_json(doc['case'])
     c.req = campaign.make_request(prep.model, c)
     tie_active, info = (doc.get('tie_active', False), {})
-    ctx = Ctx(prep, tie_active)
+    ctx = Ctx(prep, tie_active, 1000)
     stats = {'strata': {}, 'responses': {}}
     fl, cnt = evaluate(ctx, [c], stats)
     print('replay request : %s' % c.req)
@@ -701,7 +745,7 @@ def run(chk: core.Check, trusted: typing.List[str], replay: typing.Optional[str]
     sizes = SIZES[chk.tier]
     stats: typing.Dict[str, typing.Any] = {'types': 0, 'cases': 0, 'builds': [], 'unavailable_targets': [], 'strata': {}, 'responses': {},
                                            'type_strata': {}, 'rounds': 0, 'tie_probe': {}}
-    total = {'evaluations': 0, 'pair_comparisons': 0, 'pairs_incomparable': 0, 'model_comparisons': 0, 'chain_ser_des_ser': 0,
+    total = {'obs_model_comparisons': 0, 'evaluations': 0, 'pair_comparisons': 0, 'pairs_incomparable': 0, 'model_comparisons': 0, 'chain_ser_des_ser': 0,
              'chain_des_ser_des': 0, 'tie_instances': 0, 'rejected_by_target': 0, 'equal_after_canonicalisation': 0}
     distinct = set()
     samples: typing.List[dict] = []
@@ -747,7 +791,7 @@ def run(chk: core.Check, trusted: typing.List[str], replay: typing.Optional[str]
         tie_active = reproduces and chk.is_known(TIE)
         if reproduces and chk.is_known(TIE):
             tie_reproduced_any = True
-        ctx = Ctx(prep, tie_active)
+        ctx = Ctx(prep, tie_active, sizes.get('obs_sample', 0))
 
         cases = make_cases(chk.rng, prep, sizes)
         stats['cases'] += len(cases)
@@ -755,7 +799,7 @@ def run(chk: core.Check, trusted: typing.List[str], replay: typing.Optional[str]
         fails, cnt = evaluate(ctx, cases, stats)
         stats['wall_evaluate_s'] = round(stats.get('wall_evaluate_s', 0) + time.time() - t_e, 1)
         for k, v in cnt.items():
-            total[k] += v
+            total[k] = total.get(k, 0) + v
         for c in cases:
             if not c.expected.startswith('ok') or len(c.tags) > 1:
                 distinct.add((c.tid, c.req))
